@@ -222,7 +222,7 @@ def arbitrary_cases(draw, tier):
     hi = 6 if tier == "quick" else 7
     m = draw(st.integers(1, hi))
     n = draw(st.integers(1, hi))
-    A = draw(gen.qmat(m, n, patterns=("generic", "int", "pure_imag", "axis", "sparse", "unit", "zero")))
+    A = draw(gen.qmat(m, n, patterns=("generic", "generic", "int", "pure_imag", "axis", "sparse", "unit", "zero", "units", "units")))
     kind = draw(st.sampled_from(["plain", "plain", "zero_col", "dup_row", "scaled"]))
     A = A.copy()
     if kind == "zero_col":
